@@ -100,6 +100,12 @@ fn pipe_case(rt: &tokio::runtime::Runtime, dir: &Path, case: &Value, n: usize) -
 		let fp = fp.clone();
 		Box::pin(async move {
 			let key = Path::new(&filename).file_name().unwrap().to_string_lossy().to_string();
+			// sources do not open instantly in real life (files, HTTP): earlier-listed sources suspend LONGER here,
+			// so any dependence on completion order of the opening futures shows
+			let idx: usize = key.trim_start_matches("src").parse().unwrap_or(1);
+			for _ in 0..(4usize.saturating_sub(idx)) {
+				tokio::task::yield_now().await;
+			}
 			if !fp.is_empty() {
 				let idx: usize = key.trim_start_matches("src").parse().unwrap_or(1);
 				return get_reader(&fp[idx - 1]).await;
